@@ -179,6 +179,10 @@ func (k *Checker) registerCommitted(n *Node, st *raft.VerifState, from, to uint6
 			k.count("sm.commit_agree")
 			if g.term != e.GetTerm() || g.hash != h {
 				k.report("C01", "sm.commit_agree", n, fmt.Sprintf("commits (index=%d, term=%d) but (index=%d, term=%d) with different content was committed earlier", i, e.GetTerm(), i, g.term), "")
+				if !isLeader(st) {
+					// C06: a follower's commit index went beyond the prefix on which it matches the leader
+					k.report("C06", "cm.follower_match", n, fmt.Sprintf("commit index covers index %d where this node holds term %d but the committed entry has term %d", i, e.GetTerm(), g.term), "")
+				}
 				return
 			}
 			continue
